@@ -376,6 +376,11 @@ class Logic:
         if _is_null(lu):
             f = self.nonnull(r, env, depth)
             return Not(f) if op == "==" else (f if op == "!=" else self.atom("(nullptr %s %s)" % (op, canon(subst(r, env)))))
+        if op in ("==", "!=") and _boolish(lu) and _boolish(ru):
+            # equality of two truth values is their equivalence
+            A, B = self.truthy(l, env, depth), self.truthy(r, env, depth)
+            iff = Or(And(A, B), And(Not(A), Not(B)))
+            return iff if op == "==" else Not(iff)
         a, b = canon(subst(l, env)), canon(subst(r, env))
         if op == "==":
             if b < a and not _is_lit(ru):
@@ -474,15 +479,15 @@ class Logic:
                 key = "ret:" + canon(subst(n, env))
                 return self.atom(key if rt in ("bool", "_Bool") else "(%s != 0)" % key)
             if rt not in ("bool", "_Bool"):
-                # integral result used as a condition
-                return self.atom("(%s != 0)" % canon(subst(n, env)))
+                # integral result used as a condition: the same fact as `!(result == 0)`
+                return Not(self.atom("(%s == 0)" % canon(subst(n, env))))
         if k == "member" and not n.get("method"):
             t = n.get("type", "")
             if t.endswith("*") or "unique_ptr" in t or "shared_ptr" in t or "std::function" in t:
                 return self.atom("nonnull(%s)" % objpath(subst(n, env)))
             if _INTLIKE.fullmatch(t.replace("const ", "").strip()):
                 # an integral member used as a condition: the same fact as `member != 0` (what an accessor call yields)
-                return self.atom("(%s != 0)" % canon(subst(n, env)))
+                return Not(self.atom("(%s == 0)" % canon(subst(n, env))))
         return self.atom(canon(subst(n, env)))
 
     def truthy(self, x, env, depth):
@@ -621,6 +626,20 @@ def _impure_call(n):
 
 def _optional_like(n):
     return isinstance(n, dict) and "lang::optional" in (n.get("type") or "")
+
+
+def _boolish(n):
+    while isinstance(n, dict) and n.get("k") in ("cast", "paren") and n.get("e") is not None:
+        n = ir.unwrap(n["e"])
+    if not isinstance(n, dict):
+        return False
+    if n.get("k") == "lit":
+        return n.get("t") == "bool"
+    if n.get("k") == "bin" and n.get("op") in ("==", "!=", "<", ">", "<=", ">=", "&&", "||"):
+        return True
+    if n.get("k") == "un" and n.get("op") == "!":
+        return True
+    return (n.get("type") or "").replace("const ", "").strip() in ("bool", "_Bool")
 
 
 def _is_null(n):
